@@ -206,7 +206,9 @@ func (w *world) addID(id int64) {
 	w.ids = append(w.ids, id)
 }
 
-func (w *world) accept(reject bool, dial bool) {
+// accept returns the id number of the new session's default id: 1000+n, or the number
+// already given to the same string (the OS may reuse an address of an earlier connection).
+func (w *world) accept(reject bool, dial bool) int64 {
 	n := len(w.pairs)
 	pr := &pair{n: n}
 	w.rec.mu.Lock()
@@ -244,14 +246,21 @@ func (w *world) accept(reject bool, dial bool) {
 	}
 	w.rec.mu.Lock()
 	pr.key = w.rec.last
-	w.idStr[int64(1000+n)] = w.rec.lastID
+	idn := int64(1000 + n)
+	for k, v := range w.idStr {
+		if v == w.rec.lastID {
+			idn = k
+		}
+	}
+	w.idStr[idn] = w.rec.lastID
 	w.rec.reject = false
 	w.rec.mu.Unlock()
 	if pr.p != nil {
 		pr.key = interface{}(pr.p)
 	}
 	w.pairs = append(w.pairs, pr)
-	w.addID(int64(1000 + n))
+	w.addID(idn)
+	return idn
 }
 
 func (w *world) numberOf(s erpc.Session) int {
@@ -382,8 +391,7 @@ func runHist(cfg *RunCfg) {
 			case len(w.pairs) == 0 || (k < 18 && len(w.pairs) < 6):
 				reject := r.Intn(6) == 0
 				dial := r.Intn(3) == 0
-				n := len(w.pairs)
-				w.accept(reject, dial)
+				idn := w.accept(reject, dial)
 				kind = "acc"
 				if dial {
 					kind = "dial"
@@ -397,7 +405,7 @@ func runHist(cfg *RunCfg) {
 				if dial {
 					name = "dial"
 				}
-				in = VL(VS(name), VN(int64(1000+n)), VS(v))
+				in = VL(VS(name), VN(idn), VS(v))
 			case len(es) == 0:
 				e--
 				if len(w.pairs) >= 6 {
